@@ -122,6 +122,20 @@ def impl_init():
                 pkt = pk
             except PacketError:
                 pass
+        elif (c["ts"] + c["ms"] + c["flags"]) % 5 == 1:
+            # a frame as captured (every layer dissected from bytes) whose TCP options the caller has REPLACED since, deleting the automatic fields so
+            # that they are recomputed: the packet says what its fields say now
+            from scapy.layers.l2 import Ether
+            other = U.scapy_from_spec(spec_of(c["flags"], (c["ts"] + 777) % 2 ** 32, not c["has_ts"] or c["ts"] % 2 == 0, c["frag"], pre=c["ts"] + c["ms"] + 1))
+            fr = Ether(bytes(Ether(src="02:00:00:00:00:01", dst="02:00:00:00:00:02", type=0x800)) + bytes(other))
+            t = fr.getlayer("TCP")
+            if t is not None and pkt.getlayer("TCP") is not None:
+                t.options = list(pkt.getlayer("TCP").options)
+                del t.dataofs, t.chksum
+                ip = fr.getlayer("IP")
+                del ip.len, ip.chksum
+                if bytes(fr.getlayer("IP")) == bytes(pkt):          # (only when Scapy re-serialises the option list byte for byte)
+                    pkt = fr
         try:
             with U.options_as(c["ts"] + c["ms"], **vals) as kw:
                 r = fingerprint_uptime(pkt, last, **kw)
